@@ -43,15 +43,22 @@ def census(scfg, out, original_names):
     flat = flatten(scfg)
     ids = Counter(id(n) for n in ast.walk(out))
     if_tests = Counter(id(n.test) for n in ast.walk(out) if isinstance(n, (ast.If, ast.While)))
+    # structural fall-back (a refactor may copy statements instead of re-using the node objects)
+    out_dumps = Counter(ast.dump(n) for n in ast.walk(out) if isinstance(n, ast.stmt))
+    out_test_dumps = Counter(ast.dump(n.test) for n in ast.walk(out) if isinstance(n, (ast.If, ast.While)))
+    orig_dumps = Counter()
+    orig_test_dumps = Counter()
+    by_id = []
     for n, b in flat.items():
         if isinstance(b, PythonASTBlock):
             tree = list(b.tree)
             if len(b._jump_targets) - len([t for t in b._jump_targets if t in b.backedges]) == 2 and tree:
                 last = tree.pop()
                 t = last.value if isinstance(last, ast.Expr) else last
+                orig_test_dumps[ast.dump(t)] += 1
                 c = if_tests.get(id(t), 0)
                 if c != 1:
-                    errs.append(("test-count", c, n, ast.unparse(t)[:40]))
+                    by_id.append(("test-count", c, n, ast.unparse(t)[:40], "test", ast.dump(t)))
             for st in tree:
                 if isinstance(st, ast.Return):
                     c = ids.get(id(st), 0)
@@ -60,11 +67,28 @@ def census(scfg, out, original_names):
                     elif c == 0:
                         continue  # 'return' without value: replaced by a fresh constant assignment
                     if c != 1:
+                        if st.value is not None:
+                            d = ast.dump(st.value)
+                            c2 = sum(1 for m in ast.walk(out) if isinstance(m, (ast.Assign, ast.Return)) and m.value is not None and ast.dump(m.value) == d)
+                            if c2 >= 1:
+                                continue
                         errs.append(("return-count", c, n))
                     continue
+                if isinstance(st, ast.expr):
+                    st_d = ast.dump(ast.Expr(st))
+                else:
+                    st_d = ast.dump(st)
+                orig_dumps[st_d] += 1
                 c = ids.get(id(st), 0)
                 if c != 1:
-                    errs.append(("statement-count", c, n, ast.unparse(st)[:40]))
+                    by_id.append(("statement-count", c, n, ast.unparse(st)[:40], "stmt", st_d))
+    for e in by_id:
+        d = e[5]
+        if e[4] == "stmt" and out_dumps.get(d, 0) == orig_dumps[d]:
+            continue
+        if e[4] == "test" and out_test_dumps.get(d, 0) == orig_test_dumps[d]:
+            continue
+        errs.append(e[:4])
     want = Counter()
     latches = Counter()
     branch_tests = Counter()
@@ -221,11 +245,9 @@ def graph_harness(E, ctx, aux, desc):
 def jobs(tier):
     out = []
     for j in _c07_jobs(tier):
-        factory = None
-        for cell in j.harness.__closure__ or ():
-            if callable(cell.cell_contents):
-                factory = cell.cell_contents
-        out.append(Job(name=j.name, space=j.space, harness=harness_for(factory), bounds=j.bounds, budget_s=j.budget_s,
+        if j.harness.raising:
+            continue  # same programs as the non-raising jobs; the census is static
+        out.append(Job(name=j.name, space=j.space, harness=harness_for(j.harness.factory), bounds=j.bounds, budget_s=j.budget_s,
                        required=j.required, cubes_fn=j.cubes_fn, path_timeout_s=j.path_timeout_s))
     gj = s1_jobs(tier, graph_harness)
     if tier == "quick":
